@@ -483,8 +483,14 @@ func makeOptionalPtrDecoder(typ reflect.Type) (decoder, error) {
 	if err != nil {
 		return nil, err
 	}
+	// a nil pointer has one encoding: the empty value of the kind the
+	// encoder writes for it (see makePtrWriter)
+	nilKind := nilPtrKind(etype)
 	dec := func(s *Stream, val reflect.Value) (err error) {
 		kind, size, err := s.Kind()
+		if err == nil && size == 0 && kind != Byte && kind != nilKind {
+			return &decodeError{msg: fmt.Sprintf("wrong kind of empty value (got %v, want %v)", kind, nilKind), typ: typ}
+		}
 		if err != nil || size == 0 && kind != Byte {
 			// rearm s.Kind. This is important because the input
 			// position must advance to the next value even though
@@ -504,6 +510,20 @@ func makeOptionalPtrDecoder(typ reflect.Type) (decoder, error) {
 		return err
 	}
 	return dec, nil
+}
+
+// nilPtrKind returns the kind of empty value that the encoder writes for a
+// nil pointer to typ: an empty list for structs and for slices and arrays of
+// anything but bytes, an empty string otherwise.
+func nilPtrKind(typ reflect.Type) Kind {
+	switch k := typ.Kind(); {
+	case k == reflect.Struct:
+		return List
+	case (k == reflect.Slice || k == reflect.Array) && !isByte(typ.Elem()):
+		return List
+	default:
+		return String
+	}
 }
 
 var ifsliceType = reflect.TypeOf([]interface{}{})
